@@ -120,3 +120,20 @@ def gen_repeat_fail_scenario(rng):
         for o in sc['ops']:
             o['fail']['exc'] = rng.choice(['ValueError', 'Custom', 'KeyError', 'Wrap'])
     return sc
+
+
+def schedule_rules(rng, n_jobs):
+    """an adversarial schedule: one or two actors are descheduled for a while (virtual time) at one kind of step, every time
+    they take it with probability p — staggered worker start-up, a slow dispatcher, slow result delivery, a restart that takes
+    long, a death watch that is held up between its reads"""
+    lib = [
+        {'role': 'restart_handler', 'op': 'start', 'obj': None, 'sleep': rng.choice([0.05, 0.15, 0.3]), 'p': .7},
+        {'role': 'main', 'op': 'start', 'obj': None, 'sleep': rng.choice([0.02, 0.1]), 'p': .5},
+        {'role': 'main', 'op': 'q.put', 'obj': None, 'sleep': rng.choice([0.01, 0.05]), 'p': .3},
+        {'role': 'Worker-%d' % rng.randrange(n_jobs), 'op': 'q.put', 'obj': 'rq', 'sleep': rng.choice([0.02, 0.1]), 'p': .5},
+        {'role': 'Worker-%d' % rng.randrange(n_jobs), 'op': 'q.task_done', 'obj': None, 'sleep': rng.choice([0.02, 0.1]), 'p': .5},
+        {'role': 'results_handler', 'op': 'array.set', 'obj': 'results_received', 'sleep': rng.choice([0.02, 0.1]), 'p': .5},
+        {'role': 'unexpected_death_handler', 'op': 'is_alive', 'obj': None, 'sleep': rng.choice([0.03, 0.12]), 'p': .5},
+        {'role': 'unexpected_death_handler', 'op': 'array.get', 'obj': 'workers_dead', 'k': rng.choice([20, 60, 120]), 'p': .5},
+    ]
+    return rng.sample(lib, rng.choice([1, 1, 2]))
